@@ -1,10 +1,11 @@
 SPECIFICATION Spec
 CONSTANTS
  BugDupChecks = FALSE  BugIterEmpty = FALSE  BugAppendTotal = FALSE
- NSlots = 2  MaxStreams = 2  MaxRecs = 2
+ NSlots = 1  MaxStreams = 1  MaxRecs = 3
  USizes <- OneU  VSizes <- TinyV  Pads <- NoValues  FlagSet <- NoValues
+ CommonU <- NoValues  CommonV <- NoValues
  Volume = FALSE
- MinSteps = 99  MaxSteps = 6
+ MinSteps = 99  MaxSteps = 8
 VIEW View
 ACTION_CONSTRAINT EmitT
 CHECK_DEADLOCK FALSE
